@@ -36,69 +36,58 @@ theorem truncating_code_witness : assignCode false .i8 300 = .stored 44 ∧ assi
 theorem truncating_code_witness_u64 :
     assignCode false .i64 9223372036854775808 = .stored (-9223372036854775808) ∧ assignIdeal .i64 9223372036854775808 = .rejected := by decide
 
-/-- binding_pure (explicit schemas): in any history of calls that all give their schema explicitly, every call
-    answers exactly as it would alone, whatever was bound before (also with inferring calls interleaved, as long
-    as the call in question is explicit). -/
-theorem binding_pure_explicit (perCall : Bool) (reg : Registry) (g s : Nat) :
-    (bindStep perCall reg (.explicit g s)).2 = single (.explicit g s) := rfl
+/-- An explicit schema: the answer never depends on the history, under any treatment of inference. -/
+theorem binding_pure_explicit (m : Mode) (reg : Registry) (g s : Nat) :
+    (bindStep m reg (.explicit g s)).2 = single (.explicit g s) := by
+  cases m <;> rfl
 
-/-- the registry never changes the answer of any call once inference is per call -/
-theorem binding_pure (reg : Registry) (c : Call) : (bindStep true reg c).2 = single c := by
-  cases c <;> simp [bindStep, single]
+/-- **binding_pure** (the code as it is: inferred schemas are remembered per Go type): every call — explicit or
+    inferred — answers what it answers alone in a fresh process, whatever was bound before. -/
+theorem binding_pure (reg : Registry) (c : Call) : (bindStep .memo reg c).2 = single c := by
+  cases c with
+  | explicit g s => rfl
+  | inferred g =>
+    simp only [bindStep, single, List.contains_nil]
+    split <;> rfl
 
-/-- every history succeeds with the single-call results under per-call inference -/
-theorem binding_pure_history (reg : Registry) (h : List Call) : bindRun true reg h = h.map single := by
+/-- … lifted to every history of Wrap / Prototype calls, from every state of the registry. -/
+theorem binding_pure_history (reg : Registry) (h : List Call) : bindRun .memo reg h = h.map single := by
+  induction h generalizing reg with
+  | nil => rfl
+  | cons c cs ih =>
+    have := binding_pure reg c
+    simp only [bindRun, List.map_cons]
+    rw [ih]
+    rw [this]
+
+/-- the same for a design without any shared state -/
+theorem binding_pure_perCall (reg : Registry) (h : List Call) : bindRun .perCall reg h = h.map single := by
   induction h generalizing reg with
   | nil => rfl
   | cons c cs ih =>
     simp only [bindRun, List.map_cons]
     cases c <;> simp [bindStep, single, ih]
 
-/-- binding_pure_partial: the code as it is satisfies the property on histories that infer each Go type at most once -/
-theorem binding_pure_partial (reg : Registry) (h : List Call)
-    (fresh : ∀ g, Call.inferred g ∈ h → g ∉ reg)
-    (once : (h.filterMap fun c => match c with | .inferred g => some g | _ => none).Nodup) :
-    bindRun false reg h = h.map single := by
-  induction h generalizing reg with
-  | nil => rfl
-  | cons c cs ih =>
-    cases c with
-    | explicit g s =>
-      simp only [bindRun, bindStep, List.map_cons, single]
-      rw [ih reg (fun g hg => fresh g (List.mem_cons_of_mem _ hg)) (by simpa using once)]
-    | inferred g =>
-      have hg : g ∉ reg := fresh g (List.mem_cons_self)
-      simp only [List.filterMap_cons, List.nodup_cons] at once
-      have hc : reg.contains g = false := by simpa using hg
-      simp only [bindRun, bindStep, Bool.false_eq_true, if_false, hc, List.map_cons, single, List.contains_nil]
-      congr 1
-      apply ih
-      · intro g' hg'
-        simp only [List.mem_cons, not_or]
-        refine ⟨?_, fresh g' (List.mem_cons_of_mem _ hg')⟩
-        intro e
-        subst e
-        apply once.1
-        simp only [List.mem_filterMap]
-        exact ⟨_, hg', rfl⟩
-      · exact once.2
-
-/-- the full statement is false of the code as it is: the second inference of the same Go type panics -/
-theorem binding_inferred_twice_witness :
-    bindRun false [] [.inferred 7, .inferred 7] = [.ok 7 7, .panic] ∧ [Call.inferred 7, .inferred 7].map single = [.ok 7 7, .ok 7 7] := by decide
+/-- The repaired defect, stated: in the pinned commit's code (`accumulate`) the second inference of the same Go type
+    panicked, which the memoising code does not. -/
+theorem binding_inferred_twice_was_a_panic :
+    bindRun .accumulate [] [.inferred 7, .inferred 7] = [.ok 7 7, .panic] ∧
+    bindRun .memo [] [.inferred 7, .inferred 7] = [.ok 7 7, .ok 7 7] ∧
+    [Call.inferred 7, .inferred 7].map single = [.ok 7 7, .ok 7 7] := by decide
 
 /-- (T) Inventory, re-extracted from source on every run, of the package-level variables that any function other
     than `init` writes in the anchored packages (bindnode, schema, multicodec, traversal, selector, linking, cidlink,
-    basicnode, datamodel, the two DAG codecs, memstore): exactly the registry of inferred schema types (`bindStep`'s
-    state — the known finding) and the codec registry through its registration functions (set-up only by contract).
+    basicnode, datamodel, the two DAG codecs, memstore): exactly the registry of inferred schema types with its memo table (`bindStep`'s
+    state, written under a mutex by `inferSchemaLocked` only) and the codec registry through its registration functions (set-up only by contract).
     A new global write breaks this theorem. -/
 theorem globalWrites_src_inventory :
     Generated.globalWrites_src =
-      [("node/bindnode", "defaultTypeSystem", ["inferSchema"]),
+      [("node/bindnode", "defaultTypeSystem", ["inferSchemaLocked"]),
+       ("node/bindnode", "inferredSchemas", ["inferSchemaLocked"]),
        ("multicodec", "DefaultRegistry", ["RegisterDecoder", "RegisterEncoder"])] := by decide
 
 /-! Non-vacuity -/
 example : assignCode true .u8 255 = .stored 255 ∧ assignCode true .u8 256 = .rejected ∧ assignCode true .i8 (-128) = .stored (-128) := by decide
-example : bindRun false [] [.inferred 1, .explicit 1 5, .inferred 2] = [.ok 1 1, .ok 1 5, .ok 2 2] := by decide
+example : bindRun .memo [] [.inferred 1, .explicit 1 5, .inferred 1] = [.ok 1 1, .ok 1 5, .ok 1 1] := by decide
 
 end Ipld.Props.C19
